@@ -55,7 +55,7 @@ def check_log_likelihood(run, A):
     calls = [e.term for e in gl.events if e.kind == 'call' and call_parts(e.term)[0] == 'method:_log_likelihood']
     if calls:
         lp = call_arg(calls[0], 2, 'log_pdf')
-        okp = lp is not None and strip_views(lp).op == 'unpack' and call_parts(strip_views(strip_views(lp).args[0]))[0] == 'method:_predict' and strip_views(lp).args[1] == 2
+        okp = lp is not None and strip_views(lp).op == 'unpack' and call_parts(strip_views(strip_views(lp).args[0]))[0] == 'method:_predict' and (strip_views(lp).args[1] == 2 if strip_views(lp).args[3] is None else (strip_views(lp).args[1] > strip_views(lp).args[3] and strip_views(lp).args[1] == strip_views(lp).args[2] - 1))
         run.check(okp, 'R-DEP', 'CACGMM.log_likelihood: uses the component log-pdf of its own E-step', ll.loc(calls[0].node), '', 'log_pdf passed on is not the third result of self._predict(y)',
                   construct='R-DEP::CACGMM.log_likelihood::log_pdf-source')
 
